@@ -143,6 +143,19 @@ def run_history(dfa, history):
     return p, True, None
 
 
+def count_accepting(pattern, token):
+    """how many transitions of the pattern's current state accept the token - probed on copies, independent of how
+    Pattern.consume resolves (or hides) a conflict"""
+    from copy import deepcopy
+
+    n = 0
+    for pred, _tgt in pattern.state.transition:
+        probe = deepcopy(pattern.predicate_map.get(id(pred), pred))
+        if probe.accept(token):
+            n += 1
+    return n
+
+
 def canon(p, order, preds):
     ps = tuple(sorted((preds[k], snapshot(v)) for k, v in p.predicate_map.items()))
     return (order[id(p.state)], ps)
@@ -161,8 +174,13 @@ def explore_expression(expr, agg, label):
     while frontier:
         nxt = []
         for hist in frontier:
+            base, base_alive, _ = run_history(dfa, hist)
             for c in classes:
                 h = hist + [c]
+                if base_alive and count_accepting(base, tok(c, len(hist))) > 1:
+                    found.append(h)
+                    agg.transitions += 1
+                    continue
                 p, alive, amb = run_history(dfa, h)
                 agg.transitions += 1
                 if amb is not None:
@@ -178,6 +196,111 @@ def explore_expression(expr, agg, label):
     for k in seen:
         agg.state([label, repr(k)])
     return found, len(seen), len(classes), len(order)
+
+
+# ---------------------------------------------------------------------------------------
+# (b) the same question one level up: reachable states of find_all (several concurrent attempts)
+# ---------------------------------------------------------------------------------------
+
+def run_find_all(expr, history):
+    """real find_all over the token history with every Pattern it creates observed.
+    returns {"ambiguous": None|str, "state": canonical state of the live attempts, "live": n}"""
+    from copy import deepcopy
+
+    from codelimit.common.gsm import matcher
+    from codelimit.common.gsm.Pattern import Pattern as RealPattern
+
+    created = []
+    problem = []
+
+    class Tracked(RealPattern):
+        def __init__(self, start, automata, *a, **kw):
+            super().__init__(start, automata, *a, **kw)
+            self.fed = 0
+            self.ok = True
+            created.append(self)
+
+        def consume(self, item):
+            # independent of how consume resolves conflicts: count the transitions that accept
+            n = 0
+            for pred, _t in self.state.transition:
+                probe = deepcopy(self.predicate_map.get(id(pred), pred))
+                if probe.accept(item):
+                    n += 1
+            if n > 1:
+                problem.append(f"{n} transitions accept {item.value!r} for the attempt started at {self.start}")
+            r = super().consume(item)
+            self.fed += 1
+            self.ok = bool(r)
+            return r
+
+    toks = [tok(c, i) for i, c in enumerate(history)]
+    real = matcher.Pattern
+    matcher.Pattern = Tracked
+    try:
+        try:
+            matches = matcher.find_all(expr, toks)
+        except ValueError as e:
+            if "Multiple transitions" not in str(e):
+                raise
+            return {"ambiguous": str(e), "state": None, "live": 0}
+    finally:
+        matcher.Pattern = real
+    if not created:
+        raise core.HarnessError("seam matcher.Pattern never hit")
+    if problem:
+        return {"ambiguous": problem[0], "state": None, "live": 0}
+    n = len(toks)
+    live = [p for p in created if p.ok and p.fed == n - p.start and p.fed > 0]
+    order, preds = dfa_index(created[0].automata)
+    done_end = max([m.end for m in matches if not (m in live and m.end == n)] or [0])
+    st = []
+    for p in sorted(live, key=lambda q: q.start):
+        ps = tuple(sorted((preds.get(k, -1), snapshot(v)) for k, v in p.predicate_map.items()))
+        st.append((order[id(p.state)], ps, p.start < done_end))
+    return {"ambiguous": None, "state": tuple(st), "live": len(live)}
+
+
+def natural_classes(expr):
+    return [c for c in token_classes(expr) if c.split(":")[0] in ("id", "p", "kw", "op") and not (c.startswith("id:") and not c.endswith("other"))][:14]
+
+
+def explore_find_all(expr, agg, label, max_live, max_len):
+    classes = []
+    pv = predicate_values(expr)
+    for c in token_classes(expr):
+        kind, _, val = c.partition(":")
+        natural = (kind == "id" and val.endswith("other")) or c in ("p:(", "p:)") or (kind, val) in {("kw" if a == "Keyword" else "op" if a == "Operator" else "p", b) for a, b in pv} \
+                  or c in ("p:\x00other", "kw:\x00other")
+        if natural and c not in classes:
+            classes.append(c)
+    r0 = run_find_all(expr, [classes[0]])
+    seen = {(): []}
+    frontier = [[]]
+    found = []
+    capped = 0
+    depth = 0
+    while frontier and depth < max_len:
+        depth += 1
+        nxt = []
+        for hist in frontier:
+            for c in classes:
+                h = hist + [c]
+                r = run_find_all(expr, h)
+                agg.transitions += 1
+                if r["ambiguous"]:
+                    found.append((h, r["ambiguous"]))
+                    continue
+                if r["live"] > max_live:
+                    capped += 1
+                    continue
+                if r["state"] not in seen:
+                    seen[r["state"]] = h
+                    nxt.append(h)
+        frontier = nxt
+    for k in seen:
+        agg.state([label, "find_all", repr(k)])
+    return found, len(seen), len(classes), bool(frontier), capped
 
 
 def validate_depth_cap(agg):
@@ -251,8 +374,28 @@ def check_language(lang, agg):
     return out
 
 
-def _block(lang, agg):
-    for kind, sig, case, detail in check_language(lang, agg):
+def _block(block, agg):
+    if isinstance(block, tuple):
+        _, lang, idx, max_live, max_len = block
+        role, expr = capture()[lang][idx]
+        label = f"{lang}[{idx}:{role}]"
+        found, nstates, nclasses, open_frontier, capped = explore_find_all(expr, agg, label, max_live, max_len)
+        case = {"language": lang, "expr": idx, "role": role, "level": "find_all"}
+        agg.case(case, nstates > 1, f"find_all: {nstates} states/{len(found)} ambiguous/{'bounded' if open_frontier else 'fixpoint'}", sample=True)
+        agg.extra[f"find_all_states {label}"] = nstates
+        agg.extra[f"find_all_histories_with_more_live_attempts_than_bound {label}"] = capped
+        if open_frontier:
+            agg.notes.add(f"find_all exploration of {label} stopped at the history-length bound")
+        seen_tok = set()
+        for h, why in found:
+            if h[-1] in seen_tok:
+                continue
+            seen_tok.add(h[-1])
+            w = source_witness(lang, h)
+            agg.violation("ambiguous-transition", {"language": lang, "role": role, "token": h[-1].replace("\x00", ""), "level": "find_all"}, dict(case, history=h),
+                          f"{label}: find_all over tokens {h}: {why}" + (f"; source witness {w!r}" if w else ""))
+        return
+    for kind, sig, case, detail in check_language(block, agg):
         agg.violation(kind, sig, case, detail)
 
 
@@ -261,9 +404,17 @@ def replay(case):
     role, expr = cap[case["expr"]]
     from codelimit.common.gsm.Expression import expression_to_nfa, nfa_to_dfa
 
+    if case.get("level") == "find_all":
+        r = run_find_all(expr, case["history"])
+        if r["ambiguous"]:
+            return [{"kind": "ambiguous-transition", "sig": {"language": case["language"], "role": role, "token": case["history"][-1].replace("\x00", ""), "level": "find_all"},
+                     "detail": f"find_all over {case['history']}: {r['ambiguous']}"}]
+        return []
     dfa = nfa_to_dfa(expression_to_nfa(expr))
+    base, alive, _ = run_history(dfa, case["history"][:-1])
+    many = alive and count_accepting(base, tok(case["history"][-1], len(case["history"]) - 1)) > 1
     _, _, amb = run_history(dfa, case["history"])
-    if amb is not None:
+    if amb is not None or many:
         return [{"kind": "ambiguous-transition",
                  "sig": {"language": case["language"], "role": role, "token": case["history"][-1].replace("\x00", "")},
                  "detail": f"history {case['history']} raises 'Multiple transitions found!'"}]
@@ -283,4 +434,13 @@ def run(ctx: core.Ctx):
                 "token classes = 6 pygments kinds x (every string a predicate compares with + '(' + ')' + one other value). "
                 "A case = one expression; non-trivial = more than one reachable configuration. Complete (fixpoint) in both tiers.")
     ctx.assumptions = ["predicates observe only token kind and value", f"Balanced behaves identically for depth >= {DEPTH_CAP} (validated at start)"]
-    ctx.run_blocks(_block, sorted(Languages.by_name))
+    blocks = sorted(Languages.by_name)
+    max_live, max_len = ctx.pick((3, 12), (3, 15))
+    ctx.bounds["find_all_level"] = {"max_live_attempts": max_live, "max_history_length": max_len}
+    for lang, exprs in capture().items():
+        for idx, (role, _e) in enumerate(exprs):
+            if role == "header":
+                blocks.append(("find_all", lang, idx, max_live, max_len))
+    ctx.run_blocks(_block, blocks)
+    if any("stopped at the history-length bound" in n for n in ctx.agg.notes):
+        ctx.caps.append("find_all-level exploration reached the history-length bound before a fixpoint for some expressions (see notes in counters)")
